@@ -168,6 +168,40 @@ func runConc(w *bufio.Writer, id int, seed int64) (fails int) {
 						sharedLive[rec.UUID()] = &cp
 						mu.Unlock()
 					}
+				case x < 77: // a BATCH racing for a shared unique key: all-or-nothing must survive concurrency
+					own := flatToRec(genRec(rr, c))
+					own.TM, own.VM = 0, 9 // slow Validate: the batch stays long between its phases
+					keyN++
+					own.K = fmt.Sprintf("g%d-%d", g, keyN)
+					sh := flatToRec(genRec(rr, c))
+					sh.TM, sh.VM = 0, 0
+					sh.K = fmt.Sprintf("shared-%d", rr.Intn(4))
+					n, err := db.InsertOrUpdateMany(own, sh)
+					if err != nil {
+						if n != 0 {
+							mu.Lock()
+							fail("not linearizable: InsertOrUpdateMany failed (%v) but reports %d objects inserted", err, n)
+							mu.Unlock()
+						}
+						if _, e2 := db.GetByUUID(&shape.Rec{}, own.UUID()); e2 == nil {
+							mu.Lock()
+							fail("not linearizable: InsertOrUpdateMany failed (%v) yet its first member %s is stored", err, own.UUID())
+							mu.Unlock()
+							cp := *own
+							my[own.UUID()] = &cp // keep the bookkeeping of the final state exact
+						}
+					} else {
+						cp := *own
+						my[own.UUID()] = &cp
+						mu.Lock()
+						if prev, dup := sharedWin[sh.K]; dup {
+							fail("not linearizable: the unique key %q was accepted twice (objects %s and %s)", sh.K, prev, sh.UUID())
+						}
+						sharedWin[sh.K] = sh.UUID()
+						cp2 := *sh
+						sharedLive[sh.UUID()] = &cp2
+						mu.Unlock()
+					}
 				case x < 80: // chained search refinements while others write
 					fld := rr.Intn(NF)
 					s := db.Search(&shape.Rec{}, shape.Paths[fld], ">=", keyValue(genRec(rr, c).K[fld], fld, false))
